@@ -11,7 +11,7 @@
 (* Families:                                                                                      *)
 (*  graph    relation with child sets (page tree Kids, field Kids, structure tree K, name/number  *)
 (*           tree Kids, form XObject resources): adj[i] = set of children of node i; node 1 is    *)
-(*           attached to the document; decor adds a dangling / wrong-typed / null child to node 1 *)
+(*           attached to the document; decor adds a dangling, wrong-typed (by reference or direct) or null child to node 1 *)
 (*  fun      relation with one successor (action Next, bead N/V, xref Prev, XRefStm, Extends,     *)
 (*           indirect Length, reference chains, Parent chains, colour spaces, functions, SMask,   *)
 (*           IRT): succ[i] in 0..n+2: 0 none, n+1 dangling reference, n+2 wrong-typed target      *)
@@ -49,7 +49,9 @@ GraphShapes ==
   UNION {{[fam |-> "graph", rel |-> r, n |-> n, adj |-> a, decor |-> d] :
             r \in GraphRels, a \in {b \in [1..n -> SUBSET (1..n)] : GraphKept(n, b)},
             d \in Decors} : n \in 1..MaxN}
-GraphShapesKept == {s \in GraphShapes : s.decor = "none" \/ (AdjCode(s.n, s.adj) + Seed) % DecorMod = 0}
+DecorIdx(d) == CASE d = "dangling" -> 1 [] d = "wrong" -> 2 [] d = "null" -> 3 [] d = "direct" -> 4 [] OTHER -> 0
+(* decorated graphs: all of them below MaxN nodes, a sample (a different one per decoration) on MaxN nodes *)
+GraphShapesKept == {s \in GraphShapes : s.decor = "none" \/ s.n < MaxN \/ (AdjCode(s.n, s.adj) + Seed + DecorIdx(s.decor)) % DecorMod = 0}
 
 FunCode(n, f) == SumSet({i * 1000 + f[i] * 7 * i : i \in 1..n})
 FunShapes ==
